@@ -269,10 +269,11 @@ impl Resolver<'_> {
                         }
                     })?;
                     if is_last {
-                        self.root_mod.module.insert_frame(frame, NS_THIS);
+                        self.root_mod.module.insert_frame(frame, NS_THIS)
                     } else {
-                        self.root_mod.module.insert_frame(frame, NS_THAT);
+                        self.root_mod.module.insert_frame(frame, NS_THAT)
                     }
+                    .with_span(arg.span)?;
                 }
 
                 closure.args[index] = arg;
